@@ -17,7 +17,7 @@ LEVEL_NOTE = "Trusted: virtual clock, probes attached from /verif (wait_for_next
 DESIGN_REF = "§5 C31"
 RULE = "case = (program, cancel point k) or (program, timeout T); distinct = hash of (program, fault); non-trivial = fault lands while the run is unfinished"
 REQUIRED_REACH = ["cancel_point", "cancelled_run", "cancel_after_finish", "timeout_case", "timed_out_run", "timeout_after_finish", "resume_after_cancel",
-                  "active_steps_eval", "active_steps_nonempty", "reserialize_after_resume", "deadline_inside_blocked_stretch", "stop_returned_before_deadline_loop_regained_after", "resumed_run_with_timeout", "deadline_in_run_whose_steps_never_await"]
+                  "active_steps_eval", "active_steps_nonempty", "reserialize_after_resume", "deadline_inside_blocked_stretch", "stop_returned_before_deadline_loop_regained_after", "resumed_run_with_timeout", "deadline_in_run_whose_steps_never_await", "resume_on_the_same_instance", "cancelled_while_resource_was_being_resolved"]
 ASSUMPTIONS = ["timeout instants avoid exact ties with the run's own event times (x.37 offsets)"]
 
 
@@ -46,6 +46,15 @@ def gen_case(seed):
         fam = "fan"
     spec["sched_seed"] = seed
     spec["timeout"] = None
+    if fam == "det" and rnd.random() < 0.35:
+        # one single-worker step gets a resource whose async factory really suspends: cancel / timeout instants then also fall
+        # into "dispatched, resource still being resolved, body not started"; the cancelled context is resumed on the SAME instance
+        cands = [s_ for s_ in spec["steps"] if not s_.get("handler") and s_["name"] not in ("start",) and not s_.get("late")]
+        if cands:
+            st = rnd.choice(cands)
+            st["nw"] = 1
+            st["res"] = {"kind": "async", "delay": rnd.choice([0.5, 1, 2]), "cache": rnd.random() < 0.5}
+            spec["same_instance"] = True
     return {"seed": seed, "family": fam, "spec": spec}
 
 
@@ -123,7 +132,12 @@ def check_cancel(case, k, ref, acc):
         return
     if case["family"] != "det":
         return
-    tr2 = engine_run.run_case({**case["spec"], "uid_base": 1000}, ctx_factory=lambda w: Context.from_dict(w, json.loads(json.dumps(snap))), start=False)
+    same = tr.extra.get("wf") if case["spec"].get("same_instance") else None
+    if same is not None:
+        acc.hit("resume_on_the_same_instance")
+        if any(r["k"] == "res_enter" for r in tr.rec.log) and not any(r["k"] == "res_ready" for r in tr.rec.log if r["k"] == "res_ready"):
+            acc.hit("cancelled_while_resource_was_being_resolved")
+    tr2 = engine_run.run_case({**case["spec"], "uid_base": 1000}, wf=same, ctx_factory=lambda w: Context.from_dict(w, json.loads(json.dumps(snap))), start=False)
     acc.case()
     acc.hit("resume_after_cancel")
     if tr2.errors:
